@@ -198,7 +198,8 @@ Section Eval.
     | S f =>
       if src <? n then
         let vsrc := get_int st (enc_key fidx (i ++ [src])) in
-        if Z.eqb vsrc NPOSZ then compact_refs f st fidx i (src + 1) dst n
+        (* IsEmpty() compares the uint32_t member: the value as the member's type holds it *)
+        if Z.eqb (wrapZ 4 false vsrc) NPOSZ then compact_refs f st fidx i (src + 1) dst n
         else compact_refs f (set_int st (enc_key fidx (i ++ [dst])) vsrc) fidx i (src + 1) (dst + 1) n
       else set_local st 0 (Z.of_N dst)       (* result count is handed back through local 0 *)
     end.
